@@ -343,7 +343,7 @@ impl HllSketch {
                         )));
                     }
 
-                    let lg_arr = lg_arr as usize;
+                    let lg_arr = checked_lg_coupon_arr(lg_arr, lg_config_k)?;
                     let set = HashSet::deserialize(cursor, lg_arr, compact)?;
                     Mode::Set { set, hll_type }
                 }
